@@ -214,7 +214,7 @@ func init() {
 		NonTrivial: func(r *sim.Result) bool { return r.Stats["C13 rounds"] > 4 && r.Commits > 0 },
 		Rule:       "sim: every message order (random adversarial schedules over 3 heights with node syncs to older / equal / newer heights and commit-callback failures): commit-callback heights and new-round-callback heights strictly increasing per node, rounds only above committed heights, sampled (height, view) lexicographically non-decreasing after every step. rt: the same oracles on the real two-goroutine runtime (race detector on) under loss / duplication / delay, 2..4 ms real election timers, commit failures, UpdateState bursts and log-keyed delays around SetHeightAndResetView / Dispose / cache consumption, with a sampler goroutine per node. non-trivial (sim) = more than 4 rounds and a commit in the case",
 		Floors:     map[string]int{"C13 rounds": 10000, "C13 samples": 500000, "commits": 3000},
-		Judged:     []string{"C13 rounds", "C13 samples", "commits"},
+		Judged:     []string{"C13 rounds", "C13 samples", "C13 samples taken inside SPI calls", "commits"},
 		Extra: func(run *harness.Run) ([]harness.Finding, map[string]interface{}, []string) {
 			fs, ev, inc := rtPart(run, "stress", 40, 1500, map[string]int{"C13 commit callbacks judged": 1000, "C13 round callbacks judged": 1000, "C13 state samples": 50000})
 			// views that do not fit 63 bits, the last view 2^64-1 and the election timeout fired in it
